@@ -59,7 +59,7 @@ MAXLIMIT = 4
 # which variant of the model the real code is compared with: 0 = the code as it is (bridging count of the backward
 # axis-1 fill read from the last yielded slice, finding F64); set to 1 together with the repair of F64 in /repo
 # (the repaired model is proved equal to the spec for every limit: directional_backward_refines_partial)
-MODEL_FIXED = 0
+MODEL_FIXED = 1
 
 
 # ------------------------------------------------------------------ values
